@@ -490,10 +490,10 @@ static int load_frame(int l2, unsigned proto, unsigned lin, int pull, const char
 {
 	size_t n = strlen(hex) / 2;
 
-	if (strlen(hex) % 2 || n > FRAME_MAX - 64)
-		return -1;
 	if (!strcmp(hex, "-"))
 		n = 0;
+	else if (strlen(hex) % 2 || n > FRAME_MAX - 64)
+		return -1;
 	/* 16-aligned base; L2 frames at +2 (NET_IP_ALIGN), L3 frames at +16 so that the IP header is
 	 * 4-aligned in both cases */
 	memset(pkt_area, 0xA5, 4096);
